@@ -120,6 +120,12 @@ class Built:
             if s == "-":
                 parts.append("int")
                 continue
+            if s == "-u":
+                parts.append("int | str")          # a PEP 604 union of plain types (no tensor in it: nothing for the checker)
+                continue
+            if s == "-o":
+                parts.append("int | None")
+                continue
             if s == "-a":
                 # a plain position spelled with Annotated and metadata that is no dltype annotation
                 parts.append("Annotated[int, 'count']")
@@ -309,6 +315,9 @@ def _call_function(kind, style, prov, sc, params, ret_src, body_raises, ns, defa
         args, kwargs = tuple(pv[:kpos]), dict(zip(pn[kpos:], pv[kpos:]))
     elif style == "kw":
         args, kwargs = (), dict(zip(pn, pv))
+    elif style == "kwrev":
+        # every argument by keyword, written in the REVERSE of the declaration order: the order of checking is the signature's
+        args, kwargs = (), dict(reversed(list(zip(pn, pv))))
     elif style == "mixed" and len(pv) > 1:
         k = len(pv) // 2
         args, kwargs = tuple(pv[:k]), dict(zip(pn[k:], pv[k:]))
